@@ -57,7 +57,7 @@ func (w *World) Snapshot(pc int) (*Snapshot, error) {
 		s.Parked = append(s.Parked, j)
 	}
 	w.mu.Unlock()
-	sort.Slice(s.Parked, func(i, k int) bool { return s.Parked[i].Seq < s.Parked[k].Seq })
+	sort.Slice(s.Parked, func(i, k int) bool { return jobLess(s.Parked[i], s.Parked[k]) })
 	for _, hv := range w.Views {
 		s.ViewIdx[hv.Name] = hv.View.VerifViewIndexes()
 		s.Released[hv.Name] = hv.Released
